@@ -267,7 +267,7 @@ func (cg *caseGen) effect(global bool, nargs int) pvcase.Effect {
 	if global {
 		pre, keys = "g", globalKeys
 	}
-	ws := []wk{{"inc", 10}, {"set", 8}}
+	ws := []wk{{"inc", 10}, {"set", 8}, {"del", 3}}
 	if cg.f.cloner {
 		ws = append(ws, wk{"mut", 10})
 	} else {
@@ -281,6 +281,10 @@ func (cg *caseGen) effect(global bool, nargs int) pvcase.Effect {
 		if cg.chance(0.25) {
 			e.Key = pickStr(cg.r, keys)
 		}
+	case "del":
+		// delete(c.state, k): a rollback has to bring the key back
+		e.Op = pre + "del"
+		e.Key = pickStr(cg.r, keys)
 	case "set":
 		e.Op = pre + "set"
 		e.Key = pickStr(cg.r, keys)
